@@ -287,6 +287,20 @@ theorem setValidatorPaused_money (L : Ledger) (a : Addr) (val : Validator) (f : 
 theorem setValidatorUnpaused_money (L : Ledger) (a : Addr) (val : Validator) : SameMoney L (setValidatorUnpaused L a val) := by
   constructor <;> rfl
 
+theorem sumStake_set_same {L : Ledger} {a : Addr} {old v : Validator} (hg : valGet? L a = some old) (hs : v.stake = old.stake) :
+    sumBy (fun x : Validator => x.stake) (AMap.set L.validators a v) = sumBy (fun x : Validator => x.stake) L.validators :=
+  stakeSum_valPut_same hg hs
+
+theorem stakeSum_setValidatorUnstaking {L : Ledger} {a : Addr} {old val : Validator} (f : Nat) (hg : valGet? L a = some old)
+    (hs : val.stake = old.stake) : stakeSum (setValidatorUnstaking L a val f) = stakeSum L := by
+  unfold stakeSum; rw [setValidatorUnstaking_validators]; exact sumStake_set_same hg hs
+theorem stakeSum_setValidatorPaused {L : Ledger} {a : Addr} {old val : Validator} (f : Nat) (hg : valGet? L a = some old)
+    (hs : val.stake = old.stake) : stakeSum (setValidatorPaused L a val f) = stakeSum L := by
+  unfold stakeSum; rw [setValidatorPaused_validators]; exact sumStake_set_same hg hs
+theorem stakeSum_setValidatorUnpaused {L : Ledger} {a : Addr} {old val : Validator} (hg : valGet? L a = some old)
+    (hs : val.stake = old.stake) : stakeSum (setValidatorUnpaused L a val) = stakeSum L := by
+  unfold stakeSum; rw [setValidatorUnpaused_validators]; exact sumStake_set_same hg hs
+
 theorem getValidator_ok {L : Ledger} {a : Addr} {v : Validator} (h : getValidator L a = .ok v) : valGet? L a = some v := by
   unfold getValidator at h; split at h
   · next v' hv => cases h; exact hv
